@@ -119,7 +119,11 @@ func c04Oracle(sc *Scenario, rec *Rec, s *mc.Sched) []mc.Violation {
 				if !isPrefix(rr.CliRecv, ref.Msgs) {
 					add("not-a-prefix", fmt.Sprintf("%v vs %v", rr.CliRecv, ref.Msgs))
 				}
-			case ref.Status != "nil" && ref.Status != "ctx" && statusCodeOf(f) == ref.Code && (k == 0 || statusCodeOf(rr.Finals[0]) == ref.Code):
+			case ref.Status != "nil" && ref.Status != "ctx" && statusCodeOf(f) == ref.Code && k > 0:
+				// a receive issued after the stream already reported an error: the call
+				// may have completed with the handler's status before the cancellation
+				// landed, so either status is the truth
+			case ref.Status != "nil" && ref.Status != "ctx" && statusCodeOf(f) == ref.Code:
 				// the handler's own failure (repeated by later receives once the call
 				// has completed with it): must be the complete real result
 				if rpc.serverStreams() && !complete {
